@@ -496,7 +496,7 @@ pub fn run(args: &Args) {
          entrypoint + refetch texts involved",
     );
     report.assumption("the position of a reference is tracked through the entrypoint's operation text; where it cannot be (below a client pointer, unresolvable variables) only the index, the operation name and the wrapper are judged");
-    let ex = ArtExclusions { no_persisted: true, refetch_heavy: true, ..Default::default() };
-    driver::run_single(args, &report, 2400, 72_000, &ex, &oracle);
+    let ex = ArtExclusions { no_persisted: true, refetch_heavy: true, ..driver::negative_int_exclusion() };
+    driver::run_single(args, &report, 6000, 180_000, &ex, &oracle);
     report.finish();
 }
